@@ -5,6 +5,7 @@ import re
 from ..srcmodel import AnalysisError, Unknown, Regex, unparse, walk_no_nested
 from ..cfg import CFG
 from .. import pipeline as P
+from .. import facts as F
 from .common_trie import _enclosing_tests
 
 TAGS = ["s", "t", "h", "p", "q", "f", "u", "w"]
@@ -128,16 +129,24 @@ def rule_serialization(ctx, rule):
     ctx.ob(rule, "serialize/sep.join+sep", ok, "serialize_lru is not `sep.join(stems) + sep`: %s (a serialized LRU must end with the separator so that stem-prefix = string-prefix)" % P.show(t, maxdepth=4), ser.site(ref.node))
     rx = ctx.repo.const(ser, "SERIALIZED_LRU_SPLITTER_RE")
     if sep is not None:
-        ctx.ob(rule, "serialize/separator-agrees-with-splitter", rx.pattern.startswith(re.escape(sep)), "serialize_lru joins with %r but the splitter pattern is %r" % (sep, rx.pattern), ser.site(ref.node))
+        import re._parser as sp
+        import re._constants as sc
+        try:
+            first = list(sp.parse(rx.pattern, rx.flags))[0]
+        except Exception:
+            first = None
+        consumed = chr(first[1]) if first is not None and first[0] is sc.LITERAL else None
+        ctx.ob(rule, "serialize/separator-agrees-with-splitter", consumed == sep, "serialize_lru joins with %r but the splitter pattern %r consumes %r" % (sep, rx.pattern, consumed), ser.site(ref.node))
     ref = ser.func("unserialize_lru")
     ctx.fn(ref.qualname)
     t = ex.result_term(ex.function(ref))
     # SPLITTER.split(lru.rstrip(sep))
     ok = False
     arg = None
-    if t[0] == "method" and t[1] == "split" and t[2] == ("global", "ural.lru.serialization.SERIALIZED_LRU_SPLITTER_RE"):
-        arg = t[3][0]
-    elif t[0] == "call" and t[1] == "re.split":
+    op = F.regex_op(t)
+    if op is not None and op[1] == "split" and op[0] == "ural.lru.serialization.SERIALIZED_LRU_SPLITTER_RE" and op[2]:
+        arg = op[2][0]
+    elif t[0] == "call" and t[1] == "re.split" and len(t[2]) >= 2:
         arg = t[2][1]
     if arg is not None:
         ok = arg[0] == "method" and arg[1] == "rstrip" and arg[2] == ("param", "lru") and arg[3] == (("const", sep),)
